@@ -269,6 +269,19 @@ def systematic(B, S):
         B.And(a, B.ITE(b, c, d)), N(B.ITE(a, b, c)), B.Xor(a, B.ITE(b, c, d), B.Implies(c, d)), B.Or(a, B.Implies(b, c), d),
         B.ITE(B.Xor(a, b), B.Or(a, c, d), B.And(b, c)), B.true, B.false, a, N(a),
     ]
+    # collapse shapes: an n-ary node with two operands that differ syntactically but that one rewrite
+    # step maps to the SAME expression (a visitor that de-duplicates rebuilt operands is wrong for Xor)
+    pairs = [
+        (B.ITE(c, a, b), B.Or(B.And(c, a), B.And(N(c), b))), (B.ITE(c, a, b), B.Or(B.And(a, c), B.And(b, N(c)))),
+        (B.Implies(a, b), B.Or(N(a), b)), (B.Implies(a, b), B.Or(b, N(a))),
+        (B.Or(a, b, c), N(B.And(N(a), N(b), N(c)))), (B.Or(a, b, c, d), N(B.And(N(a), N(b), N(c), N(d)))),
+        (B.Or(B.And(a, b), B.And(N(a), N(b))), N(B.Xor(a, b))), (B.Or(B.And(a, N(b)), B.And(N(a), b)), B.Xor(a, b)),
+        (B.And(a, N(a), **U), B.false), (B.Or(a, N(a), **U), B.true),
+    ]
+    for x, y in pairs:
+        for op in (B.Xor, B.And, B.Or):
+            exprs += [op(x, y), op(y, x, **U), op(d, x, y), N(op(x, y, **U), **U)]
+        exprs += [B.Xor(x, y, d), B.ITE(d, B.Xor(x, y), a), B.Implies(B.Xor(x, y), d)]
     lists = [[(R, e)] for e in exprs]
     # list-shaped: shared, re-bound, read-before-bound, cse-relevant
     lists += [
